@@ -41,6 +41,9 @@ FileForms == {"plain", "mixed_case", "empty_sections"}
 \* constructor or model_validate with that data is the same step - it becomes the one active configuration, or is
 \* refused while one is active
 LoadEntries == {"load", "constructor", "model_validate"}
+\* PathsResolved: whatever the layers say about other settings, an active configuration names its performance model and
+\* engine file by absolute paths of existing files, and a load naming a missing one fails (FailKinds) also when it
+\* comes together with a harmless setting of another section
 
 \* packaged defaults (src/AEIC/data/default_config.toml)
 Default == [p \in Paths |-> IF p = "nox" THEN "bffm2" ELSE IF p = "wd" THEN "wdefault" ELSE "true"]
